@@ -102,17 +102,17 @@ def stdlib_designs(tier):
   for T, n in ([(Bits8, 2), (Bits16, 3), (Bits4, 4)] if quick else [(Bits8, 2), (Bits16, 3), (Bits4, 4), (Bits32, 5), (Bits1, 8), (mk_bits(65), 2)]):
     add(B.Mux, T, n, limits=[(r'sel', n)]); add(B.Demux, T, n, limits=[(r'sel', n)])
   for T in ([Bits8, Bits32] if quick else [Bits1, Bits8, Bits32, mk_bits(65)]):
-    add(B.Adder, T); add(B.Subtractor, T); add(B.And, T); add(B.Incrementer, T, 3); add(B.ZeroComparator, T)
+    add(B.Adder, T); add(B.Subtractor, T); add(B.And, T); add(B.Incrementer, T, 3 if T.nbits > 1 else 1); add(B.ZeroComparator, T)
     add(B.EqComparator, T); add(B.LTComparator, T); add(B.LEComparator, T)
   add(B.LeftLogicalShifter, Bits8); add(B.RightLogicalShifter, Bits8); add(B.LeftLogicalShifter, Bits32); add(B.RightLogicalShifter, Bits32)
   for a in ([(Bits8, 4, 1, 1, False), (Bits16, 8, 2, 1, True), (Bits8, 2, 1, 2, False)] if quick else
             [(Bits8, 4, 1, 1, False), (Bits16, 8, 2, 1, True), (Bits8, 2, 1, 2, False), (Bits32, 32, 2, 1, True), (Bits4, 16, 3, 2, False), (Bits1, 2, 1, 1, False)]):
     add(B.RegisterFile, *a)
   add(B.RegisterFileRst, Bits8, 4, 1, 1, False, 5)
-  for n in ([2, 4] if quick else [1, 2, 3, 4, 5, 8, 16]):
+  for n in ([2, 4] if quick else [2, 3, 4, 5, 8, 16]):
     add(B.RoundRobinArbiter, n); add(B.RoundRobinArbiterEn, n)
   for a in ([(5, 3), (4, 2)] if quick else [(5, 3), (4, 2), (8, 3), (2, 1), (16, 4), (3, 2)]): add(B.Encoder, *a)
-  for a in ([(3, Bits16), (2, Bits8)] if quick else [(3, Bits16), (2, Bits8), (4, Bits32), (1, Bits4), (5, Bits1)]): add(B.Crossbar, *a, limits=[(r'sel', a[0])])
+  for a in ([(3, Bits16), (2, Bits8)] if quick else [(3, Bits16), (2, Bits8), (4, Bits32), (5, Bits1)]): add(B.Crossbar, *a, limits=[(r'sel', a[0])])
   for QC in (Q.NormalQueueRTL, Q.PipeQueueRTL, Q.BypassQueueRTL):
     for a in ([(Bits16, 1), (Bits16, 2), (Bits8, 3)] if quick else [(Bits16, 1), (Bits16, 2), (Bits8, 3), (Bits32, 4), (Bits1, 5), (Bits128, 2), (Bits4, 8)]):
       add(QC, *a)
